@@ -1557,11 +1557,54 @@ func c14VisitsEveryFile(p *Prog, r *Report, rule string) {
 		}
 	}
 	cons := kDeleteFiles + "#every-file-attempted"
-	if loop == nil {
+	var loopStmt ast.Stmt
+	var loopBody *ast.BlockStmt
+	var post ast.Stmt
+	if loop != nil {
+		loopStmt, loopBody = loop, loop.Body
+	} else {
+		// an index loop over the whole list: for i := 0; i < n; i++ { ... files[i] ... } (n = len(files), hoisted or not)
+		for _, fs := range forLoops(fi.Decl.Body) {
+			if fs.Cond == nil || fs.Init == nil || fs.Post == nil {
+				continue
+			}
+			init, ok := fs.Init.(*ast.AssignStmt)
+			if !ok || len(init.Lhs) != 1 || len(init.Rhs) != 1 {
+				continue
+			}
+			iv := objOf(info, init.Lhs[0])
+			if z, isZ := constInt(info, init.Rhs[0]); !isZ || z != 0 || iv == nil {
+				continue
+			}
+			cond, ok := ast.Unparen(fs.Cond).(*ast.BinaryExpr)
+			if !ok || cond.Op != token.LSS || objOf(info, cond.X) != iv {
+				continue
+			}
+			// the bound is the length of the list
+			bound := ast.Unparen(cond.Y)
+			if o := objOf(info, bound); o != nil {
+				if def := singleDefIn(info, fi.Decl.Body, o); def != nil {
+					bound = ast.Unparen(def)
+				}
+			}
+			bc, ok := bound.(*ast.CallExpr)
+			if !ok || len(bc.Args) != 1 || objOf(info, bc.Args[0]) != listParam {
+				continue
+			}
+			if id, isId := bc.Fun.(*ast.Ident); !isId || id.Name != "len" {
+				continue
+			}
+			if inc, isInc := fs.Post.(*ast.IncDecStmt); !isInc || inc.Tok != token.INC || objOf(info, inc.X) != iv {
+				continue
+			}
+			loopStmt, loopBody, post = fs, fs.Body, fs.Post
+		}
+	}
+	if loopStmt == nil {
 		r.Undecided(rule, cons, p.pos(fi.Decl), "no loop over the list parameter")
 		return
 	}
-	head := f.loopHead(loop)
+	head := f.loopHeadStmt(loopStmt)
 	del := p.keysPred("(*internal/usecase/cleaner.UseCase).deleteFile")
 	if p.Func(kCleanDeleteFile) == nil {
 		// the per-file step was merged into this loop: an iteration attempts the file when it looks its content
@@ -1570,7 +1613,10 @@ func c14VisitsEveryFile(p *Prog, r *Report, rule string) {
 	}
 	dels := setOf(f.NodesMust(del))
 	inLoop := func(n *GNode) bool {
-		return n.Ast != nil && n.Ast.Pos() >= loop.Body.Pos() && n.Ast.End() <= loop.Body.End()
+		if post != nil && n.Ast != nil && n.Ast.Pos() >= post.Pos() && n.Ast.End() <= post.End() {
+			return true // the post statement belongs to the loop
+		}
+		return n.Ast != nil && n.Ast.Pos() >= loopBody.Pos() && n.Ast.End() <= loopBody.End()
 	}
 	var start []int
 	for _, e := range f.Nodes[head].Succs {
@@ -1599,7 +1645,7 @@ func c14VisitsEveryFile(p *Prog, r *Report, rule string) {
 			}
 		}
 	}
-	r.Check(bad == "" && len(dels) > 0, rule, cons, p.pos(loop), "every file of the list is attempted",
+	r.Check(bad == "" && len(dels) > 0, rule, cons, p.pos(loopStmt), "every file of the list is attempted",
 		bad+": the rest of the list is abandoned and nothing queues it again - the contents stay on disk until the next restart")
 }
 
